@@ -77,8 +77,16 @@ def flipcase(r, s):
 
 def mutate_name(r, e):
     """cert-side DNS style names derived from the expected name e (bytes)"""
-    k = r.randrange(16)
+    k = r.randrange(19)
     parts = e.split(b".")
+    if k >= 16:
+        # bit-5 partners of the non-letters ('-' ~ CR, '.' ~ 0x0E, digits ~ 0x10..0x19, '@' ~ '`', '_' ~ DEL): equal under a case fold
+        # done with |0x20 or ^0x20 instead of a real tolower - must never match
+        idx = [i for i, c in enumerate(e) if not (65 <= c <= 90 or 97 <= c <= 122)]
+        if not idx:
+            return e
+        pick = idx if k == 18 else [r.choice(idx)]
+        return bytes((c ^ 0x20) if i in pick else c for i, c in enumerate(e))
     if k == 0: return e
     if k == 1: return flipcase(r, e)
     if k == 2 and len(parts) > 1: return b"*." + b".".join(parts[1:])             # proper wildcard
@@ -206,6 +214,12 @@ def e2e_cases(ck, r, n):
                 mk(ee, [("utf8", b"unrelated.example")], [(g, d)], (0, 0, 0, NT_ANY))
         mk(e, [("utf8", b"unrelated.example"), ("utf8", e)], [], (0, 0, 0, NT_ANY))
         mk(e, [("utf8", e), ("utf8", b"unrelated.example")], [], (0, 0, 0, NT_ANY))
+    for e in hosts + [b"host1.bank.example", b"secure-login.bank.example"]:
+        for i, c in enumerate(e):
+            if not (65 <= c <= 90 or 97 <= c <= 122):
+                mk(e, [("utf8", e[:i] + bytes([c ^ 0x20]) + e[i + 1:])], [], (0, 0, 0, NT_ANY))
+    mk(b"user@mail.example", [("utf8", b"unrelated.example")], [(GN_DNS, b"user`mail.example")], (0, 0, 0, NT_ANY))
+    mk(b"user@mail.example", [("utf8", b"unrelated.example")], [(GN_EMAIL, b"user`mail.example")], (0, 0, 0, NT_ANY))
     while len(lines) < n:
         o, san, cn, e = gen_case(r)
         if not e or o[0]:
